@@ -104,6 +104,10 @@ type Recorder struct {
 	FaultAt    int
 	FaultShort int // bytes persisted by a failing write
 	Fired      bool
+	// FaultSticky: once the fault has fired, every later call inside the directory - reads included -
+	// fails too (a cause that outlasts the call that met it first: no descriptors, an unreachable
+	// directory, a dying disk) until the hook is removed.
+	FaultSticky bool
 }
 
 // NewRecorder observes dir.
@@ -161,6 +165,9 @@ func (r *Recorder) Before(c *vos.Call) {
 	rec := Rec{Op: c.Op, Path: p1, Path2: p2, Flag: c.Flag, Perm: c.Perm, N: c.N, Off: c.Off, Mutating: c.Mutating, Inside: in1 || in2}
 	if c.Data != nil {
 		rec.Data = append([]byte(nil), c.Data...)
+	}
+	if r.FaultSticky && r.Fired && rec.Inside {
+		c.Err = ErrInjected
 	}
 	if rec.Inside && rec.Mutating {
 		ord := len(r.Snaps)
